@@ -115,7 +115,26 @@ def _row_keys(n, rng, full):
     return keys
 
 
+def _warm_variants(rng, spec):
+    k = spec.get("key", {})
+    if k.get("t") == "vec" and k.get("es") and all(type(e) is bool for e in k["es"]):
+        pre = [rng.random() < 0.5 for _ in k["es"]]
+        if pre != k["es"]:
+            yield dict(spec, warm={"pre": pre, "fp": rng.random() < 0.5})
+    elif k.get("t") == "vec" and k.get("es") and all(type(e) is int for e in k["es"]):
+        pre = [0 for _ in k["es"]]
+        if pre != k["es"]:
+            yield dict(spec, warm={"pre": pre, "fp": rng.random() < 0.5})
+
+
 def generate(rng, tier):
+    for spec in _generate(rng, tier):
+        yield spec
+        if spec.get("fam") == "vget" and spec.get("key", {}).get("t") == "vec" and rng.random() < 0.3:
+            yield from _warm_variants(rng, spec)
+
+
+def _generate(rng, tier):
     thorough = tier == "thorough"
     pools = ["int", "strn", "float", "dup", "obj"]
     # ---- exhaustive slices against list semantics
@@ -354,6 +373,28 @@ def _exec_vget(spec):
     it = Interner()
     v = _build_vec(spec)
     key, wkey = _build_key(spec["key"], v)
+    warm = spec.get("warm")
+    if warm and spec["key"]["t"] == "vec" and len(warm["pre"]) == len(spec["key"]["es"]) and spec["key"]["es"]:
+        # the SAME key vector object was used before, with other elements, and then written in place: a selection must
+        # depend on what the key holds now, not on anything remembered from an earlier use
+        import warnings as _w
+        with _w.catch_warnings():
+            _w.simplefilter("ignore")
+            try:
+                key = Vector(list(warm["pre"]))
+                if warm.get("fp"):
+                    key.fingerprint()
+                try:
+                    v[key]
+                except Exception:
+                    pass
+                for rounds in range(2):               # written twice: the first write may be noticed, the second not
+                    for i, e in enumerate(spec["key"]["es"]):
+                        key[i] = e if rounds else warm["pre"][i]
+                        key[i] = e
+                wkey = {"t": "vec", "dtype": dtype_wire(key.schema()), "es": [_welem(e) for e in key]}
+            except Exception:
+                return {"skip": "warm key could not be prepared"}
     case = dict(_vecwire(it, v), key=wkey, py=None)
     if spec["key"]["t"] in ("int", "slice"):
         try:
